@@ -15,7 +15,8 @@ from ..core.util import import_vsc, reset_library, exc_sig
 PROPERTY = "C18"
 LEVEL = "exploration"
 RULE = ("cases = (width, signedness, written integer, write path, read paths); exhaustive for widths 1..10 over every "
-        "integer in [-2^(w+1), 2^(w+1)] and 9 write paths, exhaustive part-select read (w<=8) and write (w<=6: every "
+        "integer in [-2^(w+1), 2^(w+1)] and 9 write paths, plus (w<=8) every value of the type written by the SOLVER into a "
+        "random scalar and a random list element (pinned by an inline constraint) and read back through every path, exhaustive part-select read (w<=8) and write (w<=6: every "
         "value, hi>=lo, written value), Hypothesis for widths 11..64 (boundary-biased) and enum fields; a case is "
         "non-trivial when the written integer lies outside the field's type (reduction needed), or for part-selects "
         "when the span is a proper sub-range of the field; distinct = distinct (w, signed, value, path[, hi, lo, pv])")
@@ -60,6 +61,14 @@ class Ctx:
                 self.l2 = vsc.list_t(T(w), sz=2)
 
         self.o = Holder()
+
+        @vsc.randobj
+        class RHolder(object):
+            def __init__(self):
+                self.a = (vsc.rand_int_t if signed else vsc.rand_bit_t)(w)
+                self.l = vsc.rand_list_t(T(w), sz=2)
+
+        self.r = RHolder()
 
     def write_read(self, path, v):
         """Perform the write, return dict read-path -> observed value."""
@@ -111,9 +120,32 @@ class Ctx:
             out["index"] = l[idx]
             out["iter"] = list(l)[idx]
             out["len_ok"] = (len(l) == len(list(l)) == l.size)
+        elif path in ("solve", "l_solve"):
+            # the value is written by the solver: pinned through an inline constraint (v is in the field's type)
+            from ..model import flat
+            self.r.set_randstate(flat.mk_randstate(v & 0xffff))
+            lit = vsc.signed(v, w) if self.signed else vsc.unsigned(v, w)
+            if path == "solve":
+                with self.r.randomize_with() as it:
+                    it.a == lit
+                out["attr"] = self.r.a
+                with vsc.raw_mode():
+                    fo = self.r.a
+                out["get_val"] = fo.get_val()
+                out["val"] = fo.val
+            else:
+                with self.r.randomize_with() as it:
+                    it.l[1] == lit
+                l = self.r.l
+                out["index"] = l[1]
+                out["iter"] = list(l)[1]
+                out["len_ok"] = (len(l) == len(list(l)) == l.size)
         else:
             raise ValueError(path)
         return out
+
+
+SOLVE_PATHS = ["solve", "l_solve"]
 
 
 def check_value(ctx, path, v, acc, sample=False):
@@ -407,6 +439,18 @@ def run_shard(spec, seed, tier, acc):
                     acc.nontrivial_enum += 1
                 if vios:
                     _first_per_sig(vios, seen, acc)
+        if w <= 8:
+            # written by the solver (every value of the type), read back through every path
+            lo_t, hi_t = (-(1 << (w - 1)), (1 << (w - 1))) if signed else (0, 1 << w)
+            for v in range(lo_t, hi_t):
+                for path in SOLVE_PATHS:
+                    vios = check_value(ctx, path, v, acc)
+                    acc.evaluations += 1
+                    if v < 0 or (v >> (w - 1)) & 1:
+                        acc.nontrivial_enum += 1
+                    if vios:
+                        _first_per_sig(vios, seen, acc)
+            acc.label("values written by the solver w=%d" % w, (hi_t - lo_t) * len(SOLVE_PATHS))
         acc.label("values w=%d" % w, (2 * lim + 1) * len(WRITE_PATHS))
         acc.exhaustive = True
         if w == 3 and signed:
